@@ -98,6 +98,9 @@ public:
    /** Destructor */
    virtual ~TelnetPlainTextMessageIOGateway();
 
+   /** Resets this gateway to its default state, including our telnet-command-parsing state */
+   virtual void Reset() {PlainTextMessageIOGateway::Reset(); _inSubnegotiation = false; _commandBytesLeft = 0;}
+
 protected:
    virtual void FilterInputBuffer(char * buf, uint32 & bufLen, uint32 maxLen);
 
